@@ -284,6 +284,15 @@ func (f *Font) selectWidths() (float64, float64) {
 	} else if nominalWidth > maxWidth-107 {
 		nominalWidth = maxWidth - 107
 	}
+	// If possible, make sure that all differences to the nominal width can be
+	// represented as Type 2 charstring operands.
+	if lo, hi := maxWidth-32767, minWidth+32767; lo <= hi {
+		if nominalWidth < lo {
+			nominalWidth = lo
+		} else if nominalWidth > hi {
+			nominalWidth = hi
+		}
+	}
 	return defaultWidth, nominalWidth
 }
 
